@@ -152,6 +152,137 @@ def de_morgan(tree):
     return tree
 
 
+def _local_stores(fn):
+    """names bound in the function's own scope (not inside comprehensions, lambdas or nested defs)"""
+    out = {a.arg for a in fn.args.posonlyargs + fn.args.args + fn.args.kwonlyargs}
+    if fn.args.vararg:
+        out.add(fn.args.vararg.arg)
+    if fn.args.kwarg:
+        out.add(fn.args.kwarg.arg)
+    todo = list(fn.body)
+    while todo:
+        n = todo.pop()
+        if isinstance(n, (ast.FunctionDef, ast.AsyncFunctionDef, ast.ClassDef, ast.Lambda, ast.ListComp, ast.SetComp, ast.DictComp, ast.GeneratorExp)):
+            if isinstance(n, (ast.FunctionDef, ast.AsyncFunctionDef, ast.ClassDef)):
+                out.add(n.name)
+            continue
+        if isinstance(n, ast.Name) and isinstance(n.ctx, (ast.Store, ast.Del)):
+            out.add(n.id)
+        if isinstance(n, ast.ExceptHandler) and n.name:
+            out.add(n.name)
+        if isinstance(n, (ast.Import, ast.ImportFrom)):
+            for a in n.names:
+                out.add((a.asname or a.name).split(".")[0])
+        todo.extend(ast.iter_child_nodes(n))
+    return out
+
+
+def extract_returns(tree):
+    """return <expr>  ->  return _xh_N(<locals used by expr>), with `def _xh_N(...): return <expr>` added at module level
+    (top-level functions and methods only; expressions with yield / await / walrus / super() / lambdas capturing locals are left alone)"""
+    tree = copy.deepcopy(tree)
+    counter = [0]
+    new_defs = []
+    fns = []
+    for n in tree.body:
+        if isinstance(n, ast.FunctionDef):
+            fns.append(n)
+        elif isinstance(n, ast.ClassDef):
+            fns.extend(m for m in n.body if isinstance(m, ast.FunctionDef))
+    for fn in fns:
+        if any(isinstance(x, (ast.Yield, ast.YieldFrom, ast.Global, ast.Nonlocal)) for x in ast.walk(fn)):
+            continue
+        local = _local_stores(fn)
+        # returns of this function itself (not of nested defs)
+        todo = list(fn.body)
+        rets = []
+        while todo:
+            n = todo.pop()
+            if isinstance(n, (ast.FunctionDef, ast.AsyncFunctionDef, ast.ClassDef, ast.Lambda)):
+                continue
+            if isinstance(n, ast.Return) and n.value is not None:
+                rets.append(n)
+            todo.extend(ast.iter_child_nodes(n))
+        for r in rets:
+            v = r.value
+            if isinstance(v, (ast.Name, ast.Constant)) or (isinstance(v, ast.Tuple) and all(isinstance(e, (ast.Name, ast.Constant)) for e in v.elts)):
+                continue
+            if any(isinstance(x, (ast.Await, ast.NamedExpr, ast.Lambda, ast.Yield, ast.Starred)) for x in ast.walk(v)):
+                continue
+            if any(isinstance(x, ast.Name) and x.id in ("super", "locals", "vars") for x in ast.walk(v)):
+                continue
+            used = sorted({x.id for x in ast.walk(v) if isinstance(x, ast.Name) and isinstance(x.ctx, ast.Load) and x.id in local})
+            nm = _fresh("_xh_", counter)
+            new_defs.append(ast.FunctionDef(name=nm, args=ast.arguments(posonlyargs=[], args=[ast.arg(arg=u) for u in used], vararg=None, kwonlyargs=[],
+                                                                      kw_defaults=[], kwarg=None, defaults=[]),
+                                            body=[ast.Return(value=v)], decorator_list=[], returns=None, type_comment=None, type_params=[]))
+            r.value = ast.Call(func=ast.Name(id=nm, ctx=ast.Load()), args=[ast.Name(id=u, ctx=ast.Load()) for u in used], keywords=[])
+    tree.body.extend(new_defs)
+    ast.fix_missing_locations(tree)
+    return tree
+
+
+def loop_to_comp(tree):
+    """x = []; for t in it: [if c:] x.append(e)   ->   x = [e for t in it [if c]]    (x not used in it / c / e; no else / break)"""
+    tree = copy.deepcopy(tree)
+    for owner, field, body in list(_walk_bodies(tree)):
+        if isinstance(owner, (ast.Module, ast.ClassDef)):
+            continue
+        out = []
+        i = 0
+        while i < len(body):
+            st = body[i]
+            nxt = body[i + 1] if i + 1 < len(body) else None
+            done = False
+            if isinstance(st, ast.Assign) and len(st.targets) == 1 and isinstance(st.targets[0], ast.Name) and isinstance(st.value, ast.List) and not st.value.elts \
+                    and isinstance(nxt, ast.For) and not nxt.orelse and len(nxt.body) == 1:
+                x = st.targets[0].id
+                inner = nxt.body[0]
+                cond = None
+                if isinstance(inner, ast.If) and not inner.orelse and len(inner.body) == 1:
+                    cond, inner = inner.test, inner.body[0]
+                if isinstance(inner, ast.Expr) and isinstance(inner.value, ast.Call) and isinstance(inner.value.func, ast.Attribute) and inner.value.func.attr == "append" \
+                        and isinstance(inner.value.func.value, ast.Name) and inner.value.func.value.id == x and len(inner.value.args) == 1 and not inner.value.keywords:
+                    elt = inner.value.args[0]
+                    tnames = {n.id for n in ast.walk(nxt.target) if isinstance(n, ast.Name)}
+                    later = {n.id for s_ in body[i + 2:] for n in ast.walk(s_) if isinstance(n, ast.Name)}
+                    parts = [elt, nxt.iter] + ([cond] if cond is not None else [])
+                    if x not in set().union(*[_names(p_) for p_ in parts]) and not (tnames & later) \
+                            and not any(isinstance(n, (ast.Await, ast.Yield, ast.NamedExpr)) for p_ in parts for n in ast.walk(p_)):
+                        comp = ast.ListComp(elt=elt, generators=[ast.comprehension(target=nxt.target, iter=nxt.iter, ifs=[cond] if cond is not None else [], is_async=0)])
+                        out.append(ast.Assign(targets=[ast.Name(id=x, ctx=ast.Store())], value=comp))
+                        i += 2
+                        done = True
+            if not done:
+                out.append(st)
+                i += 1
+        setattr(owner, field, out)
+    ast.fix_missing_locations(tree)
+    return tree
+
+
+def swap_independent(tree):
+    """two adjacent assignments to plain names with call-free right-hand sides that do not mention each other's target are swapped"""
+    tree = copy.deepcopy(tree)
+
+    def simple(st):
+        return isinstance(st, ast.Assign) and len(st.targets) == 1 and isinstance(st.targets[0], ast.Name) \
+            and not any(isinstance(n, (ast.Call, ast.Await, ast.NamedExpr, ast.Yield)) for n in ast.walk(st.value))
+    for owner, field, body in list(_walk_bodies(tree)):
+        if isinstance(owner, (ast.Module, ast.ClassDef)):
+            continue
+        i = 0
+        while i + 1 < len(body):
+            a, b = body[i], body[i + 1]
+            if simple(a) and simple(b) and a.targets[0].id != b.targets[0].id and a.targets[0].id not in _names(b.value) and b.targets[0].id not in _names(a.value):
+                body[i], body[i + 1] = b, a
+                i += 2
+            else:
+                i += 1
+    ast.fix_missing_locations(tree)
+    return tree
+
+
 MECHANICAL = [
     ("list comprehensions assigned to a local rewritten as append loops", comp_to_loop),
     ("every `if` condition evaluated into a temporary first", cond_to_temp),
@@ -159,4 +290,7 @@ MECHANICAL = [
     ("`for i, e in enumerate(X)` rewritten as `for i in range(len(X)): e = X[i]`", enumerate_to_range),
     ("loop bodies consisting of one `if` rewritten with a guard clause and `continue`", guard_clauses),
     ("`if a and b` / `if a or b` rewritten by De Morgan", de_morgan),
+    ("every non-trivial `return <expr>` moved into a new private module-level helper", extract_returns),
+    ("`x = []` + append loop rewritten as a list comprehension", loop_to_comp),
+    ("adjacent independent simple assignments swapped", swap_independent),
 ]
